@@ -2,8 +2,11 @@
 
   G1 SHAPE-AGREE  per shape class the containment predicate, the exported shapely geometry and the
                   drawing are built from the same parameters (circle: bare radius and centre;
-                  rectangle: half-extent corner matrix placed by centre/orientation; polygon: the
-                  vertex ring); shape group = any of its members
+                  rectangle: half-extent corner matrix placed by centre/orientation); polygon, evaluated
+                  case by case (c06ev.polygon_rules): the exported geometry is the polygon of the vertex
+                  ring and contains_point answers what the closed ring answers for a point inside, on
+                  an edge of the bounding box, inside the box but outside the ring, outside the box;
+                  shape group = any of its members
   G2 INDEX        the spatial index mirrors the lanelets: value stored per lanelet is that lanelet's
                   polygon geometry; the lanelet polygon is right boundary + reversed left boundary;
                   id map and tree are rebuilt together from the same dict; every construction route
